@@ -3,7 +3,13 @@
   tags that are recycled safely).
 
   Quantification.  `cfg.max` is any pool size ≥ 2 (the transports use 2^24 − 1), `cfg.fl` either
-  transport sink (ThriftMux or Kafka).  `ops` is any
+  transport sink (ThriftMux or Kafka).  The connection is of **any age**: the script starts with
+  the tag pool in any state `cfg.pool = ⟨cfg.free, cfg.next⟩` satisfying the pool invariant
+  `Pool.wf` (`cfgWF`: released tags distinct, each in `[2, next]`, `1 ≤ next < max`) — a fresh
+  connection (`next = 1`, nothing released: `Pool.init`) is the special case in which all tags
+  are tiny; on an aged one tags that differ in one tag byte only (2, 258, 65538; 256, 65792) are
+  in flight together.  The tags handed out earlier and not released (`Cfg.held` of them) stay
+  out for the whole script.  `ops` is any
   finite sequence of atomic steps of the transport — requests with or without a deadline event
   (already passed or not), deadline events firing before or after transmission, send-loop
   iterations (atomic, or split at the one yield point `socket.write`: `wbegin` … `wend`, with any other
@@ -20,29 +26,28 @@ namespace Scales.TagPool
 /-- **C11, specification level.**  The history of the model satisfies the executable
     specification `spec` — the predicate the harness evaluates on the implementation. -/
 theorem C11_model_satisfies_spec (cfg : Cfg) (ops : List Op) (hc : cfgWF cfg = true)
-    (ho : opsOk cfg St.init ops = true) : spec cfg (comp.modelTrace cfg ops) = .ok := by
-  simp only [cfgWF, decide_eq_true_eq] at hc
-  exact spec_trace cfg hc ops {} St.init 0 (Inv_init cfg hc) ho
+    (ho : opsOk cfg (initSt cfg) ops = true) : spec cfg (comp.modelTrace cfg ops) = .ok := by
+  exact spec_trace cfg (wf_max hc) ops (Acc.init cfg) (initSt cfg) 0 (Inv_init cfg hc) ho
 
 /-- the five clauses of the specification hold at every step of every model history -/
 theorem C11_step_clauses (cfg : Cfg) (ops : List Op) (hc : cfgWF cfg = true)
-    (ho : opsOk cfg St.init ops = true) (h1 h2 : List (Op × Obs)) (op : Op) (o : Obs)
+    (ho : opsOk cfg (initSt cfg) ops = true) (h1 h2 : List (Op × Obs)) (op : Op) (o : Obs)
     (htr : comp.modelTrace cfg ops = h1 ++ (op, o) :: h2) :
     (∀ t ∈ givenTags op o, 2 ≤ t ∧ t < cfg.max) ∧
-    uniqueOk (unanswered h1) (reqTags o.wrote) = true ∧
-    (∀ t ∈ o.free, t ∈ freeBefore h1 ∨ answers op t = true ∨ t ∉ unanswered h1) ∧
-    (isReqOk op o = true → freeBefore h1 ≠ [] → o.assigned ∈ freeBefore h1) ∧
-    (op ≠ .reopen → o.next ≤ Nat.max (peakInUse h1) o.tagmap.length + 1) := by
+    uniqueOk (unanswered cfg h1) (reqTags o.wrote) = true ∧
+    (∀ t ∈ o.free, t ∈ freeBefore cfg h1 ∨ answers op t = true ∨ t ∉ unanswered cfg h1) ∧
+    (isReqOk op o = true → freeBefore cfg h1 ≠ [] → o.assigned ∈ freeBefore cfg h1) ∧
+    (op ≠ .reopen → o.next ≤ Nat.max (peakInUse cfg h1) (o.tagmap.length + heldBefore cfg h1) + 1) := by
   have hs := C11_model_satisfies_spec cfg ops hc ho
   rw [htr] at hs
-  have := specGo_split cfg h1 {} 0 op o h2 hs
+  have := specGo_split cfg h1 (Acc.init cfg) 0 op o h2 hs
   obtain ⟨c1, c2, c3, c4, c5, _⟩ := (specObs_ok_iff cfg _ _ op o).mp this
   exact ⟨c1, c2, c3, c4, c5⟩
 
 /-- **Range.**  Every request frame written carries a tag in `[2, max − 1]`, and so does every
     tag given to a request. -/
 theorem C11_range (cfg : Cfg) (ops : List Op) (hc : cfgWF cfg = true)
-    (ho : opsOk cfg St.init ops = true) (h1 h2 : List (Op × Obs)) (op : Op) (o : Obs)
+    (ho : opsOk cfg (initSt cfg) ops = true) (h1 h2 : List (Op × Obs)) (op : Op) (o : Obs)
     (htr : comp.modelTrace cfg ops = h1 ++ (op, o) :: h2) :
     (∀ f ∈ o.wrote, f.kind = .req → 2 ≤ f.tag ∧ f.tag + 1 ≤ cfg.max) ∧
     (isReqOk op o = true → 2 ≤ o.assigned ∧ o.assigned + 1 ≤ cfg.max) := by
@@ -55,21 +60,22 @@ theorem C11_range (cfg : Cfg) (ops : List Op) (hc : cfgWF cfg = true)
     have := hr o.assigned (by unfold givenTags; simp [hq])
     omega
 
-/-- the transports' pool (`TagPool(2^24 − 1)`, ThriftMux and Kafka alike): tags lie between 2
-    and 2^24 − 2 -/
-theorem C11_range_transport (fl : Flavour) (ops : List Op) (ho : opsOk ⟨2 ^ 24 - 1, fl⟩ St.init ops = true)
+/-- the transports' pool (`TagPool(2^24 − 1)`, ThriftMux and Kafka alike), on a connection of any
+    age: tags lie between 2 and 2^24 − 2 -/
+theorem C11_range_transport (cfg : Cfg) (hm : cfg.max = 2 ^ 24 - 1) (ops : List Op) (hc : cfgWF cfg = true)
+    (ho : opsOk cfg (initSt cfg) ops = true)
     (h1 h2 : List (Op × Obs)) (op : Op) (o : Obs)
-    (htr : comp.modelTrace ⟨2 ^ 24 - 1, fl⟩ ops = h1 ++ (op, o) :: h2) :
+    (htr : comp.modelTrace cfg ops = h1 ++ (op, o) :: h2) :
     ∀ f ∈ o.wrote, f.kind = .req → 2 ≤ f.tag ∧ f.tag ≤ 2 ^ 24 - 2 := by
   intro f hf hk
-  have := (C11_range ⟨2 ^ 24 - 1, fl⟩ ops (by simp [cfgWF]) ho h1 h2 op o htr).1 f hf hk
-  simp only at this
+  have := (C11_range cfg ops hc ho h1 h2 op o htr).1 f hf hk
+  rw [hm] at this
   omega
 
 /-- **Reserved tags.**  Tags 0 and 1 are never given to a request and never appear in a written
     request frame — whatever frames the peer sends (`ops` contains arbitrary `process` steps). -/
 theorem C11_reserved_never (cfg : Cfg) (ops : List Op) (hc : cfgWF cfg = true)
-    (ho : opsOk cfg St.init ops = true) (h1 h2 : List (Op × Obs)) (op : Op) (o : Obs)
+    (ho : opsOk cfg (initSt cfg) ops = true) (h1 h2 : List (Op × Obs)) (op : Op) (o : Obs)
     (htr : comp.modelTrace cfg ops = h1 ++ (op, o) :: h2) :
     (∀ f ∈ o.wrote, f.kind = .req → f.tag ≠ 0 ∧ f.tag ≠ 1) ∧
     (isReqOk op o = true → o.assigned ≠ 0 ∧ o.assigned ≠ 1) := by
@@ -82,9 +88,9 @@ theorem C11_reserved_never (cfg : Cfg) (ops : List Op) (hc : cfgWF cfg = true)
     request frame of this connection that the peer has not answered since (and the request
     frames of one step carry distinct tags). -/
 theorem C11_unique_unanswered (cfg : Cfg) (ops : List Op) (hc : cfgWF cfg = true)
-    (ho : opsOk cfg St.init ops = true) (h1 h2 : List (Op × Obs)) (op : Op) (o : Obs)
+    (ho : opsOk cfg (initSt cfg) ops = true) (h1 h2 : List (Op × Obs)) (op : Op) (o : Obs)
     (htr : comp.modelTrace cfg ops = h1 ++ (op, o) :: h2) :
-    (∀ f ∈ o.wrote, f.kind = .req → f.tag ∉ unanswered h1) ∧ (reqTags o.wrote).Nodup := by
+    (∀ f ∈ o.wrote, f.kind = .req → f.tag ∉ unanswered cfg h1) ∧ (reqTags o.wrote).Nodup := by
   obtain ⟨_, hu, _⟩ := C11_step_clauses cfg ops hc ho h1 h2 op o htr
   obtain ⟨hu1, hu2⟩ := uniqueOk_spec hu
   exact ⟨fun f hf hk => hu1 f.tag (mem_reqTags hf hk), hu2⟩
@@ -93,9 +99,9 @@ theorem C11_unique_unanswered (cfg : Cfg) (ops : List Op) (hc : cfgWF cfg = true
     for that very tag, or when no written, unanswered request carries it (its request was
     dropped before transmission). -/
 theorem C11_release_only_answered_or_unsent (cfg : Cfg) (ops : List Op) (hc : cfgWF cfg = true)
-    (ho : opsOk cfg St.init ops = true) (h1 h2 : List (Op × Obs)) (op : Op) (o : Obs)
+    (ho : opsOk cfg (initSt cfg) ops = true) (h1 h2 : List (Op × Obs)) (op : Op) (o : Obs)
     (htr : comp.modelTrace cfg ops = h1 ++ (op, o) :: h2) (t : Nat) (ht : t ∈ o.free)
-    (hnew : t ∉ freeBefore h1) : (∃ m, op = .process m t) ∨ t ∉ unanswered h1 := by
+    (hnew : t ∉ freeBefore cfg h1) : (∃ m, op = .process m t) ∨ t ∉ unanswered cfg h1 := by
   obtain ⟨_, _, hrel, _⟩ := C11_step_clauses cfg ops hc ho h1 h2 op o htr
   rcases hrel t ht with h | h | h
   · exact absurd h hnew
@@ -136,22 +142,34 @@ theorem C11_fresh_only_when_free_empty (max : Nat) (p p' : Pool) (popped t : Nat
 /-- **Reuse (history level).**  A request takes a released tag whenever the free set shown by
     the previous observation is not empty. -/
 theorem C11_reuse_when_free_nonempty (cfg : Cfg) (ops : List Op) (hc : cfgWF cfg = true)
-    (ho : opsOk cfg St.init ops = true) (h1 h2 : List (Op × Obs)) (op : Op) (o : Obs)
+    (ho : opsOk cfg (initSt cfg) ops = true) (h1 h2 : List (Op × Obs)) (op : Op) (o : Obs)
     (htr : comp.modelTrace cfg ops = h1 ++ (op, o) :: h2) (hq : isReqOk op o = true)
-    (hne : freeBefore h1 ≠ []) : o.assigned ∈ freeBefore h1 := by
+    (hne : freeBefore cfg h1 ≠ []) : o.assigned ∈ freeBefore cfg h1 := by
   obtain ⟨_, _, _, hre, _⟩ := C11_step_clauses cfg ops hc ho h1 h2 op o htr
   exact hre hq hne
 
 /-- **High-water mark.**  `next − 1` (the number of distinct tags ever used on the connection)
     never exceeds the peak number of tags awaiting an answer — requests in flight plus timed-out
-    requests whose discard the peer has not answered. -/
+    requests whose discard the peer has not answered; on an aged connection the latter include the
+    `heldBefore` tags handed out before the script and never answered, and the peak is counted
+    from the starting pool's `next − 1`. -/
 theorem C11_highwater_le_peak (cfg : Cfg) (ops : List Op) (hc : cfgWF cfg = true)
-    (ho : opsOk cfg St.init ops = true) (h1 h2 : List (Op × Obs)) (op : Op) (o : Obs)
+    (ho : opsOk cfg (initSt cfg) ops = true) (h1 h2 : List (Op × Obs)) (op : Op) (o : Obs)
     (htr : comp.modelTrace cfg ops = h1 ++ (op, o) :: h2) (hop : op ≠ .reopen) :
-    o.next - 1 ≤ Nat.max (peakInUse h1) o.tagmap.length := by
+    o.next - 1 ≤ Nat.max (peakInUse cfg h1) (o.tagmap.length + heldBefore cfg h1) := by
   obtain ⟨_, _, _, _, hhw⟩ := C11_step_clauses cfg ops hc ho h1 h2 op o htr
   have := hhw hop
   omega
+
+/-- the same on a fresh connection (`next = 1`: nothing was handed out before): `next − 1` is
+    bounded by the peak size of the tag map alone -/
+theorem C11_highwater_le_peak_fresh (cfg : Cfg) (ops : List Op) (hc : cfgWF cfg = true) (hn : cfg.next = 1)
+    (ho : opsOk cfg (initSt cfg) ops = true) (h1 h2 : List (Op × Obs)) (op : Op) (o : Obs)
+    (htr : comp.modelTrace cfg ops = h1 ++ (op, o) :: h2) (hop : op ≠ .reopen) :
+    o.next - 1 ≤ Nat.max (peakInUse cfg h1) o.tagmap.length := by
+  have := C11_highwater_le_peak cfg ops hc ho h1 h2 op o htr hop
+  rw [heldBefore_fresh cfg h1 hn] at this
+  simpa using this
 
 /-- **Exhaustion (pool level).**  `get` raises exactly when no tag is free and the high-water
     mark has reached `max − 1`. -/
@@ -195,23 +213,29 @@ theorem C11_exhaustion_no_tag (cfg : Cfg) (s : St) (e : EvKind) (popped : Nat) :
     simp [hex]
 
 /-- **L1 invariant.**  In every reachable state: the free set and the tag map are duplicate-free
-    and disjoint, their tags lie in `[2, next]`, together they are exactly the `next − 1` tags
-    handed out so far, and `next < max`. -/
+    and disjoint, their tags lie in `[2, next]`, together with the tags held since before the
+    script they are exactly the `next − 1` tags handed out so far, and `next < max`. -/
 theorem C11_pool_invariant (cfg : Cfg) (ops : List Op) (hc : cfgWF cfg = true)
-    (ho : opsOk cfg St.init ops = true) :
-    PoolInv cfg.max (reach cfg ops).pool (reach cfg ops).tagmap := by
-  simp only [cfgWF, decide_eq_true_eq] at hc
-  exact (Inv_trace cfg hc ops {} St.init (Inv_init cfg hc) ho).pool
+    (ho : opsOk cfg (initSt cfg) ops = true) :
+    PoolInv cfg.max (heldBefore cfg (comp.modelTrace cfg ops)) (reach cfg ops).pool (reach cfg ops).tagmap :=
+  (Inv_trace cfg (wf_max hc) ops (Acc.init cfg) (initSt cfg) (Inv_init cfg hc) ho).pool
+
+/-- the pool on its own stays in the invariant it started in (`Pool.wf`, the hypothesis on the
+    starting pool): the state a script ends in is a legal start for the next one -/
+theorem C11_pool_wf_preserved (cfg : Cfg) (ops : List Op) (hc : cfgWF cfg = true)
+    (ho : opsOk cfg (initSt cfg) ops = true) : (reach cfg ops).pool.wf cfg.max = true := by
+  have h := C11_pool_invariant cfg ops hc ho
+  have hc := h.count
+  exact Pool.wf_iff.mpr ⟨h.fnd, h.frange, by omega, h.nlt⟩
 
 /-- **L0 ⊆ L1.**  The abstract state of the property (tags of written, unanswered request
     frames, computed from the observations) is always contained in the tag map: such a tag is
     neither free nor available to another request. -/
 theorem C11_unanswered_in_tagmap (cfg : Cfg) (ops : List Op) (hc : cfgWF cfg = true)
-    (ho : opsOk cfg St.init ops = true) :
-    ∀ t ∈ unanswered (comp.modelTrace cfg ops),
+    (ho : opsOk cfg (initSt cfg) ops = true) :
+    ∀ t ∈ unanswered cfg (comp.modelTrace cfg ops),
       t ∈ tmKeys (reach cfg ops).tagmap ∧ t ∉ (reach cfg ops).pool.free := by
-  simp only [cfgWF, decide_eq_true_eq] at hc
-  have hinv := Inv_trace cfg hc ops {} St.init (Inv_init cfg hc) ho
+  have hinv := Inv_trace cfg (wf_max hc) ops (Acc.init cfg) (initSt cfg) (Inv_init cfg hc) ho
   intro t ht
   have hk := hinv.q.usub t ht
   exact ⟨hk, fun hf => hinv.pool.disj t hf hk⟩
@@ -235,7 +259,7 @@ theorem C11_kafka_timeout_keeps_tag (s : St) (rid : Nat) :
 
 /-- F6: a non-ping frame on tag 1 puts tag 1 into the free set; the next request gets tag 1. -/
 theorem C11_reserved_counterexample_unrepaired :
-    (spec ⟨2 ^ 24 - 1, .thriftmux⟩ (traceWith stepOpUnrepaired ⟨2 ^ 24 - 1, .thriftmux⟩ St.init
+    (spec { max := 2 ^ 24 - 1, fl := .thriftmux } (traceWith stepOpUnrepaired { max := 2 ^ 24 - 1, fl := .thriftmux } St.init
       [.process (-2) 1, .req .noev 1, .send])).isOk = false ∧
     (stepOpUnrepaired (2 ^ 24 - 1) (stepOpUnrepaired (2 ^ 24 - 1) St.init (.process (-2) 1)).1 (.req .noev 1)).2.assigned = 1 := by
   constructor
@@ -245,14 +269,14 @@ theorem C11_reserved_counterexample_unrepaired :
 /-- F6: a frame on the not yet used tag 3 frees it; it is handed out from the free set and then
     again as a fresh tag, and both requests are written: two unanswered frames with tag 3. -/
 theorem C11_unique_counterexample_unrepaired :
-    (spec ⟨2 ^ 24 - 1, .thriftmux⟩ (traceWith stepOpUnrepaired ⟨2 ^ 24 - 1, .thriftmux⟩ St.init
+    (spec { max := 2 ^ 24 - 1, fl := .thriftmux } (traceWith stepOpUnrepaired { max := 2 ^ 24 - 1, fl := .thriftmux } St.init
       [.req .noev 0, .send, .process (-2) 3, .req .noev 3, .req .noev 0, .send, .send])).isOk = false := by
   rfl
 
 /-- F6b (with F6 repaired): a request answered while still queued is written on its released
     tag, which the next request carries too. -/
 theorem C11_unique_counterexample_answered_in_queue :
-    (spec ⟨2 ^ 24 - 1, .thriftmux⟩ (traceWith stepOpF6bOnly ⟨2 ^ 24 - 1, .thriftmux⟩ St.init
+    (spec { max := 2 ^ 24 - 1, fl := .thriftmux } (traceWith stepOpF6bOnly { max := 2 ^ 24 - 1, fl := .thriftmux } St.init
       [.req .noev 0, .process (-2) 2, .send, .req .noev 2, .send])).isOk = false := by
   rfl
 
@@ -260,13 +284,13 @@ theorem C11_unique_counterexample_answered_in_queue :
 
 /-- three requests, one dropped unsent (deadline already passed), one answered before it was
     written, one timed out after transmission and discarded; tag reuse; frames on tags 0, 1, 77 -/
-example : comp.wf ⟨2 ^ 24 - 1, .thriftmux⟩
+example : comp.wf { max := 2 ^ 24 - 1, fl := .thriftmux }
     [.req .pre 0, .req .ev 0, .process (-2) 3, .send, .send, .req .ev 3, .send, .fire 2, .notify 2,
      .send, .process (-2) 1, .process (-2) 77, .process 0 0, .process (-66) 3, .req .noev 2, .ping,
      .send, .send, .reopen, .req .noev 0, .send] = true := by decide
 
 /-- exhaustion of a pool of size 4: tags 2 and 3, then refusal -/
-example : comp.wf ⟨4, .thriftmux⟩ [.req .noev 0, .req .noev 0, .req .noev 0, .send, .send, .process (-2) 2, .req .ev 2] = true := by
+example : comp.wf { max := 4, fl := .thriftmux } [.req .noev 0, .req .noev 0, .req .noev 0, .send, .send, .process (-2) 2, .req .ev 2] = true := by
   decide
 
 example : (stepOp .kafka 4 (stepOp .kafka 4 (stepOp .kafka 4 St.init (.req .noev 0)).1 (.req .noev 0)).1 (.req .noev 0)).2.res
@@ -276,19 +300,38 @@ example : (stepOp .kafka 4 (stepOp .kafka 4 (stepOp .kafka 4 St.init (.req .noev
 /-- Kafka: a request that times out after transmission keeps its tag (no Tdiscarded exists);
     replies carry arbitrary correlation ids (0, 1, unknown, repeated); the tag is reused only
     after the broker's answer -/
-example : comp.wf ⟨2 ^ 24 - 1, .kafka⟩
+example : comp.wf { max := 2 ^ 24 - 1, fl := .kafka }
     [.req .ev 0, .req .pre 0, .send, .send, .fire 0, .notify 0, .req .noev 3, .send, .process 0 0,
      .process 0 1, .process 0 77, .process 0 2, .process 0 2, .req .noev 2, .send, .reopen, .req .noev 0] = true := by
   decide
 
-example : ((comp.modelTrace ⟨2 ^ 24 - 1, .kafka⟩
+example : ((comp.modelTrace { max := 2 ^ 24 - 1, fl := .kafka }
     [.req .ev 0, .send, .fire 0, .notify 0, .req .noev 0, .send]).map (fun p => p.2.tagmap)) =
     [[2], [2], [2], [2], [2, 3], [2, 3]] := by decide
 
 /-- the write as a yield point: the send loop blocks in the write of request 0 (`wbegin`: from
     then on the frame counts as written), the peer answers its tag while the call is blocked, the
     tag is reused by request 1, whose frame is written after the blocked call returned -/
-example : comp.wf ⟨2 ^ 24 - 1, .thriftmux⟩
+example : comp.wf { max := 2 ^ 24 - 1, fl := .thriftmux }
     [.req .noev 0, .wbegin, .process (-2) 2, .req .noev 2, .quiet, .wend, .send, .quiet] = true := by decide
+
+/-- an aged connection: high-water mark 66051 (= 0x010203), released tags 2, 258, 65538 (they differ
+    in the second / third tag byte only) and 256, 65792; five requests take them all, then a fresh
+    tag 66052 = 0x010204; replies on tags that share two bytes with tags in flight, a time-out after
+    transmission (Tdiscarded naming 65538), a frame on a tag held since before the script (513:
+    not in the tag map, nothing is released) -/
+example : comp.wf { max := 2 ^ 24 - 1, fl := .thriftmux, next := 66051, free := [2, 258, 65538, 256, 65792] }
+    [.req .noev 258, .req .ev 65538, .req .noev 2, .req .noev 65792, .req .noev 256, .req .noev 0,
+     .send, .send, .send, .send, .send, .send, .process (-2) 2, .process (-2) 513, .fire 1, .notify 1, .send,
+     .process (-2) 65792, .req .noev 65792, .process (-66) 65538, .send, .quiet] = true := by decide
+
+example : ((comp.modelTrace { max := 2 ^ 24 - 1, fl := .thriftmux, next := 66051, free := [2, 258, 65538] }
+    [.req .noev 258, .req .noev 65538, .req .noev 2, .req .noev 0, .process (-2) 65538]).map
+      (fun p => (p.2.assigned, p.2.tagmap, p.2.free, p.2.next))) =
+    [(258, [258], [2, 65538], 66051), (65538, [258, 65538], [2], 66051), (2, [2, 258, 65538], [], 66051),
+     (66052, [2, 258, 65538, 66052], [], 66052), (0, [2, 258, 66052], [65538], 66052)] := by decide
+
+/-- a pool state that is not an invariant state is rejected: a released tag above the high-water mark -/
+example : cfgWF { max := 2 ^ 24 - 1, fl := .thriftmux, next := 300, free := [301] } = false := by decide
 
 end Scales.TagPool
